@@ -28,7 +28,7 @@ from . import common
 MODULES = ["CoapVerif.Props.C15", "CoapVerif.Findings.C15"]
 GENERATED = ["OptionList.lean", "OptionListShape.lean"]
 EDITS = {"set", "add", "setstr", "addstr", "setu32", "addu32", "remove", "setpath", "setloc", "addquery", "resetto",
-         "resetself", "resetslice", "clone", "swap", "reset"}
+         "resetself", "resetslice", "setresp", "recycle", "clone", "swap", "reset"}
 IDS_SMALL = [8, 11, 15]
 IDS_WIDE = [0, 1, 3, 4, 6, 8, 11, 12, 14, 15, 17, 20, 23, 35, 60, 258, 65535]
 
@@ -90,7 +90,9 @@ class Ref:
             k = int(f[1]) % (len(cur) + 1)
             n = int(f[2]) % (len(cur) - k + 1)
             self.ids = cur[k:k + n]
-        elif op == "reset":
+        elif op == "setresp":
+            self.ids = [int(x.split(":")[0]) for x in f[5:]] + ([12] if f[3] == "1" else [])
+        elif op in ("reset", "recycle"):
             self.ids = []
 
     def counts(self):
@@ -200,6 +202,13 @@ def rand_edit(rng, ref, pool, ids):
         if rng.random() < 0.35:
             return "resetslice %d %d" % (rng.randrange(n + 1), rng.randrange(n + 2))
         return "resetself " + " ".join(map(str, idx))
+    if pool and k < 0.932:
+        j = rng.random()
+        if j < 0.3:
+            items = [(rng.choice(ids), rand_value(rng)[:rng.choice([0, 1, 3, 8])]) for _ in range(rng.choice([0, 0, 1, 2, 4]))]
+            return ("setresp %d %d %d %d %s" % (rng.choice([65, 69, 132]), rng.choice([0, 50, 65535]), rng.choice([0, 1]), len(items),
+                                               " ".join("%d:%s" % (i, hx(v)) for i, v in items))).rstrip()
+        return rng.choice(["setu32 6 0", "observe", "observe", "recycle", "obsopts", "obsreq", "obscancel"])
     if k < 0.94:
         return "clone"
     if k < 0.97:
@@ -411,6 +420,54 @@ def size_boundary_seqs(rng, reps):
     return seqs
 
 
+def glue_seqs(rng, count):
+    """The library's own users of the option list: ResponseWriter.SetResponse sequences on one writer (a later SetResponse
+    without options must clear what an earlier one / Message() edits left), and an observation that keeps the options of
+    its registration request while the request message goes back to the pool and is reused with other values."""
+    seqs = []
+    resp_ids = [4, 4, 8, 8, 14, 15, 20, 28, 60]
+    for n in range(count):
+        seq = ["new pool %d" % rng.choice([0, 2, 16, 16, 16])]
+        if n % 2 == 0:
+            # ---- response writer
+            for _ in range(rng.choice([2, 2, 3, 4])):
+                k = rng.random()
+                if k < 0.25:
+                    seq.append("%s %d %s" % (rng.choice(["set", "add", "setstr"]), rng.choice(resp_ids), hx(rand_value(rng)[:rng.choice([1, 4, 8])])))
+                items = [(rng.choice(resp_ids), bytes(rng.randrange(256) for _ in range(rng.choice([0, 1, 2, 4, 8]))))
+                         for _ in range(rng.choice([0, 0, 1, 2, 3, 5]))]
+                code = rng.choice([65, 68, 69, 128, 132, 133, 160])
+                body = rng.choice([0, 0, 1])
+                seq.append("setresp %d %d %d %d %s" % (code, rng.choice([0, 40, 50, 60, 10000, 65535]), body, len(items),
+                                                       " ".join("%d:%s" % (i, hx(v)) for i, v in items)))
+                seq[-1] = seq[-1].rstrip()
+                seq += ["cf", "find 4", "getbytess 8 3", "locpath", "queries"]
+            # the decisive shape: options present, then SetResponse without options (and without body)
+            seq.append("setresp 132 0 0 0")
+            seq += ["find 4", "find 8", "find 12", "find 14", "cf", "locpath"]
+        else:
+            # ---- observation
+            ref = Ref()
+            pre = ["setpath %s" % hx(b"/" + b"/".join(bytes(rng.choice(b"abcdefgh") for _ in range(rng.choice([1, 3, 7, 11]))) for _ in range(rng.choice([1, 2, 3])))),
+                   "addquery %s" % hx(bytes(rng.choice(b"qrstuv=") for _ in range(rng.choice([3, 8, 12])))),
+                   "%s %d %s" % (rng.choice(["set", "add"]), rng.choice([4, 17, 35, 60]), hx(bytes(rng.randrange(256) for _ in range(rng.choice([1, 2, 6])))))]
+            rng.shuffle(pre)
+            k = rng.random()
+            reg = "setu32 6 0" if k < 0.8 else rng.choice(["setu32 6 5", "remove 6", "set 6 0000"])
+            pre.insert(rng.randrange(len(pre) + 1), reg)
+            seq += pre + ["observe", "obsopts", "obsreq"]
+            # the request message goes back to the pool and serves another request with other values
+            seq.append(rng.choice(["recycle", "recycle", "reset"]))
+            post = ["setpath %s" % hx(b"/" + b"/".join(bytes(rng.choice(b"RSTUVWXYZ") for _ in range(rng.choice([2, 5, 9, 20]))) for _ in range(rng.choice([1, 2, 4])))),
+                    "addquery %s" % hx(bytes(rng.choice(b"0123456789&") for _ in range(rng.choice([2, 9, 15])))),
+                    "setu32 %d %d" % (rng.choice([12, 14, 17]), rng.randrange(1 << 20))]
+            rng.shuffle(post)
+            seq += post[:rng.choice([1, 2, 3])]
+            seq += ["obsopts", "obsreq", "path", "obscancel", "obsreq", "obsopts", "obscancel"]
+        seqs.append(seq)
+    return seqs
+
+
 def corpus_seqs():
     out = []
     for p in sorted(glob.glob(os.path.join(common.VERIF, "corpus", "C15", "*.json"))):
@@ -533,8 +590,10 @@ def nontrivial(seq, impl):
             ids.add("15")
         elif f[0] == "resetto":
             ids.update(x.split(":")[0] for x in f[2:])
-        elif f[0] in ("resetself", "resetslice"):
+        elif f[0] in ("resetself", "resetslice", "recycle"):
             pass
+        elif f[0] == "setresp":
+            ids.update(x.split(":")[0] for x in f[5:])
         else:
             ids.add(f[1])
     if len(edits) >= 3 and len(ids) >= 2:
@@ -569,6 +628,7 @@ def explore(ctx, art):
         yield "path-edit", batches(path_edit_seqs(rng, 6000 if thorough else 400))
         yield "reset-self", batches(resetself_seqs(rng, 6000 if thorough else 500))
         yield "size-boundary", batches(size_boundary_seqs(rng, 12 if thorough else 2))
+        yield "glue", batches(glue_seqs(rng, 6000 if thorough else 400))
         yield "random", batches(random_seqs(rng, 30000 if thorough else 1200, 48 if thorough else 28))
     distinct = set()
     totals = {}
@@ -629,7 +689,9 @@ def explore(ctx, art):
         "lengths around 255/256/257 and beyond, paths with empty and 255/256-byte segments, resetto with unsorted input, "
         "clone/swap/reset/resetself; reset-self = values stored in an order different from option-number order, then the object "
         "is reset to a subset / permutation of ITS OWN options (sources alias the object's value buffer); size-boundary = "
-        "deterministic sweep over list sizes 11,12,13,14,15,16,17,20,24,32,33,40 (algorithm-switch thresholds: 12/13 of Go's "
+        "glue = the library's own users of the list: ResponseWriter.SetResponse sequences on one writer (options, then none) "
+        "and an observation whose request message is recycled and reused before the kept options are read back (Request, "
+        "GetObservationRequest, the deregistration request of Cancel); size-boundary = deterministic sweep over list sizes 11,12,13,14,15,16,17,20,24,32,33,40 (algorithm-switch thresholds: 12/13 of Go's "
         "pdqsort, capacity 16, binary-search depths): reset-to / clone / reset-to-own-permutation with unordered inputs "
         "with runs of repeated numbers, Add/Set/Remove/SetPath/AddQuery on lists of those sizes, and stored-byte totals "
         "254..258, 511..513 around the 256-byte value buffer. evaluations = operation lines executed on the real code and judged. distinct_nontrivial = number of "
